@@ -194,6 +194,30 @@ def raw_graph(case):
     return G
 
 
+def raw_input(case):
+    """The object handed to the analyzer: the raw DiGraph, or (case['und'] = 'graph' / 'multi') its undirected version — for a
+    multigraph with the parallel incidences case['par'] = [[edge index, role, stoich | None], ...] added."""
+    import networkx as nx
+    G = raw_graph(case)
+    und = case.get("und")
+    if not und:
+        return G
+    U = nx.MultiGraph() if und == "multi" else nx.Graph()      # built edge by edge: nx.MultiGraph(DiGraph) drops one of u->v, v->u
+    U.add_nodes_from(G.nodes(data=True))
+    for u, v, d in G.edges(data=True):
+        U.add_edge(u, v, **d)                                  # simple graph: a second incidence of the pair overwrites the first
+    edges = sorted(G.edges(), key=repr)
+    for k, role, st in case.get("par", []):
+        u, v = edges[k % len(edges)]
+        d = dict(role=role)
+        if st is not None:
+            d["stoich"] = st
+        if k % 2:
+            u, v = v, u
+        U.add_edge(u, v, **d)
+    return U
+
+
 def raw_cases(rng, count):
     out = []
     base = [["A + B <> C", "C >> 2 A"], ["A >> B", "B >> C", "C >> A"], ["A >> 2 A", "2 A >> 3 A"], ["A + B >> A + C", "C >> B"],
@@ -205,11 +229,33 @@ def raw_cases(rng, count):
             for view in (("bip_int", "bip_str") if mu in ("none", "no-label", "int-label") else ("bip_int",)):
                 out.append(dict(kind="raw-graph", name="raw/%s/%s/%d" % (mu, view, k), rxns=rx, iso=[], view=view, mut=[mu], pick=k))
                 k += 1
+    # undirected inputs: _as_bipartite orients every incidence by its role (simple graph: one edge per pair; multigraph: parallel
+    # incidences, the same ordered pair twice adds the coefficients)
+    for lines in base:
+        rx = G.net_from_strings(lines, "raw-graph")["rxns"]
+        for und in ("graph", "multi"):
+            for mu in ("none", "no-kind", "species-wins", "kind-other", "no-role", "no-stoich", "reversed", "rxn-rxn-arc"):
+                out.append(dict(kind="raw-graph", name="raw-und/%s/%s/%d" % (und, mu, k), rxns=rx, iso=[], view="bip_int" if k % 3 else "bip_str",
+                                mut=[mu], pick=k, und=und))
+                k += 1
+        for par in ([[0, "reactant", 2]], [[1, "product", None]], [[2, "reactant", None], [2, "reactant", 3]], [[3, "product", 2], [0, "product", 1]],
+                    [[1, None, 2]], [[4, "reactant", 1], [5, "product", 1], [4, "reactant", None]]):
+            out.append(dict(kind="raw-graph", name="raw-und/multi-parallel/%d" % k, rxns=rx, iso=[], view="bip_int", mut=["none"], pick=k,
+                            und="multi", par=par))
+            k += 1
     pool = [(l, r) for l, r in G.alphabet_reactions()]
     for j in range(count):
         nr = rng.randint(1, 4)
         sides = [(G._side(l), G._side(r)) for l, r in rng.sample(pool, nr)]
         rxns = [["r_%d" % (i + 1), rng.choice(G.RULES), l, r] for i, (l, r) in enumerate(sides)]
         mu = rng.sample(MUTATIONS[1:], rng.randint(1, 3))
-        out.append(dict(kind="raw-graph", rxns=rxns, iso=[], view=rng.choice(["bip_int", "bip_str"]), mut=mu, pick=rng.randrange(12)))
+        c = dict(kind="raw-graph", rxns=rxns, iso=[], view=rng.choice(["bip_int", "bip_str"]), mut=mu, pick=rng.randrange(12))
+        z = rng.random()
+        if z < 0.2:
+            c["und"] = "graph"
+        elif z < 0.45:
+            c["und"] = "multi"
+            c["par"] = [[rng.randrange(8), rng.choice(["reactant", "product", "product", None]), rng.choice([None, 1, 2, 3])]
+                        for _ in range(rng.randint(0, 3))]
+        out.append(c)
     return out
